@@ -13,7 +13,7 @@ from .. import gen, build, mcase
 from ..refmodel import RefHMM
 
 ID = "C01"
-CASES = {"quick": 3200, "thorough": 300000}
+CASES = {"quick": 12000, "thorough": 300000}
 MIN_CASES_PER_SHARD = 50
 CASE_TIMEOUT = 30
 RULE = ("one case = generated planar map (random / dyadic grid / chain; one-way streets, dead ends, self-listed neighbours, zero-length "
@@ -160,7 +160,7 @@ def check_case(ctx, case):
 
 
 TECHNIQUE = "runtime monitoring: reference-model oracle (independent Viterbi optimum over the raw graph, DP cross-checked by brute force) on generated hostile inputs incl. exact-threshold class"
-LEVEL_TEXT = ("3.2k (quick) / 300k (thorough) real match() runs compared with the optimum of an independent reference HMM: matched index = longest "
+LEVEL_TEXT = ("{Q} (quick) / {T} (thorough) real match() runs compared with the optimum of an independent reference HMM: matched index = longest "
               "admissible prefix, reported probability = optimum, reported path admissible with that probability; thresholds are hit exactly in a "
               "dedicated workload class. Held-on-observed; a recorded base-layer defect (C11) is fault-localised, any other disagreement fails.")
 LEVEL_NOTE = ("Trusted: the reference HMM (its DP is cross-checked by brute-force enumeration on tiny instances every run), the map's point/segment "
